@@ -62,10 +62,18 @@ def crs_by_route(route, code):
         return pickle.loads(pickle.dumps(CRS(f"EPSG:{code}")))
     if route == "pickle-wkt":
         return pickle.loads(pickle.dumps(CRS(_WKT[code])))
+    if route in ("wkt+e", "pyproj-new+e", "EPSG+e", "json+e"):
+        # same specification, but the lazily filled EPSG slot has been evaluated on this object (the library does
+        # that itself when a GeoBox with this CRS is wrapped into xarray)
+        c = crs_by_route(route[:-2], code)
+        _ = c.epsg
+        _ = c.to_epsg()
+        return c
     raise ValueError(route)
 
 
-ROUTES = ("int", "EPSG", "epsg", "wkt", "json", "pyproj", "pyproj-new", "crs", "pickle", "pickle-wkt")
+ROUTES = ("int", "EPSG", "epsg", "wkt", "json", "pyproj", "pyproj-new", "crs", "pickle", "pickle-wkt",
+          "wkt+e", "pyproj-new+e", "EPSG+e", "json+e")
 
 A0 = Affine(10.0, 0.0, 500000.0, 0.0, -10.0, 6000000.0)
 
@@ -158,6 +166,13 @@ def families():
         ("t-10-4x5", 7, lambda: Tiles((10, 10), (4, 5))),
         ("t-10-5x4", 8, lambda: Tiles((10, 10), (5, 4))),
         ("t-9-4", 9, lambda: Tiles((9, 9), (4, 4))),
+        # tile at least as large as the base on some axis: differ only there
+        ("t-10-16", 10, lambda: Tiles((10, 10), (16, 16))),
+        ("t-10-32", 11, lambda: Tiles((10, 10), (32, 32))),
+        ("t-10-10", 12, lambda: Tiles((10, 10), (10, 10))),
+        ("t-10-11x10", 13, lambda: Tiles((10, 10), (11, 10))),
+        ("t-10-4x16", 14, lambda: Tiles((10, 10), (4, 16))),
+        ("t-10-4x32", 15, lambda: Tiles((10, 10), (4, 32))),
     ]
     V = VariableSizedTiles
     F["VariableSizedTiles"] = [
@@ -184,6 +199,10 @@ def families():
         ("gt-base11", 5, lambda: GeoboxTiles(GeoBox((11, 11), A0, "EPSG:32633"), (4, 4))),
         ("gt-crs", 6, lambda: GeoboxTiles(GeoBox((10, 10), A0, "EPSG:3857"), (4, 4))),
         ("gt-moved", 7, lambda: GeoboxTiles(GeoBox((10, 10), A0 * Affine.translation(1, 0), "EPSG:32633"), (4, 4))),
+        ("gt-tile16", 10, lambda: GeoboxTiles(gb(), (16, 16))),
+        ("gt-tile32", 11, lambda: GeoboxTiles(gb(), (32, 32))),
+        ("gt-tile4x16", 12, lambda: GeoboxTiles(gb(), (4, 16))),
+        ("gt-tile4x32", 13, lambda: GeoboxTiles(gb(), (4, 32))),
         ("gt-eps1", 8, lambda: GeoboxTiles(GeoBox((10, 10), Affine(10.0, 0.0, 500000.0 + 4e-6, 0.0, -10.0, 6000000.0), "EPSG:32633"), (4, 4))),
         ("gt-eps2", 9, lambda: GeoboxTiles(GeoBox((10, 10), Affine(10.0, 0.0, 500000.0 + 8e-6, 0.0, -10.0, 6000000.0), "EPSG:32633"), (4, 4))),
     ]
@@ -348,8 +367,9 @@ def run_pair(case):
 
 def gen_triples():
     for t, members in fam().items():
-        n = len(members)
-        for i, j, k in itertools.product(range(n), repeat=3):
+        # transitivity: the '+e' (lazy state evaluated) twins of CRS routes are left to the pair slice
+        idx = [i for i, m in enumerate(members) if "+e:" not in m[0]]
+        for i, j, k in itertools.product(idx, repeat=3):
             if len({i, j, k}) == 3:
                 yield (t, i, j, k)
 
@@ -434,7 +454,14 @@ class World:
             spec = ev[1]
             c = crs_by_route(*spec)
             self.handles.append((spec, c))
-            obs, want = observe(c), baseline_cached(spec)
+            before = (str(c), hash(c), tokenize(c))
+            obs, want = observe(c), baseline_cached(spec)  # observe() reads .epsg: lazily built state is now filled in
+            after = (str(c), hash(c), tokenize(c))
+            if before != after:
+                which = [n for n, a, b in zip(("str", "hash", "token"), before, after) if a != b]
+                self.errors.append((f"lazy-state:{'+'.join(which)}-changes-after-reading-epsg:{spec[0]}",
+                                    f"CRS from {spec}: {'/'.join(which)} changed once .epsg had been read on the object "
+                                    f"({_short(before + (None,))} -> {_short(after + (None,))}); history {list(hist)}"))
             if obs != want:
                 which = [n for n, a, b in zip(("str", "hash", "token", "epsg"), obs, want) if a != b]
                 self.errors.append(
